@@ -10,6 +10,8 @@ ITEM_TABLES = [
     # a key next to the one-element tuple holding it (and the text of both)
     {"k1": 1, "k2": (1,), "k3": "1", "k4": ((1,),), "k5": (1, 1), "k6": "(1,)", "k7": -1, "k8": (-1,), "k9": ("1",)},
     {"k1": "a", "k2": ("a",), "k3": "('a',)", "k4": 2.5, "k5": (2.5,), "k6": None, "k7": (None,), "k8": "None", "k9": ((),)},
+    # different keys with the SAME Python hash (hash(-1) == hash(-2); 0.5 and 2**60; k and k + 2**61 - 1), as first and as inner steps
+    {"k1": -1, "k2": -2, "k3": 0.5, "k4": 2 ** 60, "k5": 5, "k6": 5 + 2 ** 61 - 1, "k7": "-1", "k8": -1.5, "k9": (-1, -2)},
 ]
 ATTR_TABLES = [
     {"a1": "a", "a2": "b", "a3": "_x1"},
@@ -18,6 +20,7 @@ ATTR_TABLES = [
     {"a1": "x", "a2": "xx", "a3": "X"},
     {"a1": "a", "a2": "b", "a3": "_x1"},
     {"a1": "s", "a2": "t", "a3": "a_b"},
+    {"a1": "k", "a2": "x", "a3": "a__b"},
 ]
 
 
